@@ -320,6 +320,13 @@ def _inv(a):
     """inverse of a concrete matrix, EXACT over the rationals (the doubles of the input are taken as exact values):
     IEEE rounding is not modelled, and an inexact inverse would leave 1e-16*t residues that make every later
     distance computation nonlinear in the symbolic shift"""
+    o = real_np.asarray(a, dtype=object) if has_sym(a) else None
+    if o is not None and o.shape == (3, 3) and all(not isinstance(o[i, j], Sym) and float(o[i, j]) == 0.0 for i in range(3) for j in range(3) if i != j):
+        # a diagonal matrix with symbolic entries (the axis world's cell diag(a, 10, 10)): the inverse is the diagonal of reciprocals
+        out = real_np.zeros((3, 3), dtype=object)
+        for i in range(3):
+            out[i, i] = 1 / o[i, i]
+        return out
     m = conc_arr(a, "matrix to invert")
     if m.shape != (3, 3):
         return real_np.linalg.inv(m)
